@@ -44,7 +44,7 @@ MapSt  == {"absent", "ok", "emptyMap", "null", "int", "str", "seq", "bool", "dup
 Item   == {"map", "null", "emptyMap", "str", "int", "seq"}
 
 GFields == {"name", "interval", "query_offset", "limit", "labels", "rules", "partial_response_strategy", "unknown"}
-RFields == {"record", "alert", "expr", "for", "keep_firing_for", "labels", "annotations", "unknown"}
+RFields == {"record", "alert", "expr", "merge", "for", "keep_firing_for", "labels", "annotations", "unknown"}
 
 GDom(f) == CASE f = "name"         -> Scalar \cup {"dupOther"}
              [] f = "interval"     -> Scalar \cup {"badDur"}
@@ -63,6 +63,8 @@ RDom(f) == CASE f = "record"          -> Scalar \cup {"braces", "space"}
              [] f = "labels"          -> MapSt \cup {"badTemplate", "execTemplate", "valueTemplate"}
              [] f = "annotations"     -> MapSt \cup {"badTemplate", "execTemplate"}
              [] f = "unknown"         -> {"absent", "present"}
+             \* a merge key with an inline mapping, written right after expr:  <<: {}   or   <<: {for: 1x}
+             [] f = "merge"           -> {"absent", "inlineEmpty", "inlineFor"}
 
 TopDom == {"ok", "emptyFile", "nullDoc", "commentOnly", "seq", "scalarStr", "scalarInt",
            "unknownKey", "unknownKeyFirst", "nonStrKey", "dupGroupsEmpty", "dupGroupsOther",
@@ -77,9 +79,9 @@ BaseG == [name |-> "ok", interval |-> "ok", query_offset |-> "ok", limit |-> "ok
           rules |-> "ok", partial_response_strategy |-> "absent", unknown |-> "absent"]
 BaseR(kind) ==
   IF kind = "alerting"
-  THEN [record |-> "absent", alert |-> "ok", expr |-> "ok", for |-> "ok", keep_firing_for |-> "ok",
+  THEN [record |-> "absent", alert |-> "ok", expr |-> "ok", merge |-> "absent", for |-> "ok", keep_firing_for |-> "ok",
         labels |-> "ok", annotations |-> "ok", unknown |-> "absent"]
-  ELSE [record |-> "ok", alert |-> "absent", expr |-> "ok", for |-> "absent", keep_firing_for |-> "absent",
+  ELSE [record |-> "ok", alert |-> "absent", expr |-> "ok", merge |-> "absent", for |-> "absent", keep_firing_for |-> "absent",
         labels |-> "ok", annotations |-> "absent", unknown |-> "absent"]
 
 Baseline(kind, names, order) ==
@@ -221,8 +223,12 @@ FirstBadType(r) ==
   IF bad = {} THEN "none" ELSE o[CHOOSE i \in bad : \A j \in bad : i <= j]
 MapBadType(st) == st \in {"int", "str", "seq", "bool"}      \* null passes isTag(.., mapTag)
 
+\* unpackNodes / yaml.v3 merge: keys of the merged mapping are added unless the mapping itself has them
+\* (both pint, since the repair of F9f, and Prometheus): an inline `for: 1x` counts when the rule has no `for`
+Eff(r) == IF r.merge = "inlineFor" /\ r.for = "absent" THEN [r EXCEPT !.for = "badDur"] ELSE r
+
 PintRule(d) ==
-  LET r == d.r
+  LET r == Eff(d.r)
       rec == Present(r.record)
       alr == Present(r.alert)
       exp == Present(r.expr) IN
@@ -256,7 +262,7 @@ PintRule(d) ==
 
 \* --- the default offline checks that can reach severity >= Bug on a valid rule of this vocabulary
 PintChecks(d) ==
-  LET r == d.r
+  LET r == Eff(d.r)
       alerting == Present(r.alert)
       syntax == r.expr = "badPromql" IN
   (IF syntax THEN {"check:syntax"} ELSE {})
@@ -296,7 +302,7 @@ MapDecodes(st) == st \notin {"int", "str", "seq", "bool", "dup", "valSeq", "valM
 MapNonEmpty(st) == st \notin {"absent", "emptyMap", "null"}
 
 PromRuleOK(d) ==
-  LET r == d.r
+  LET r == Eff(d.r)
       recSet == StrNonEmpty(r.record)
       alrSet == StrNonEmpty(r.alert) IN
   CASE d.ritem = "null" -> TRUE                          \* dropped from the list
@@ -360,7 +366,7 @@ Init == /\ \E k \in Kinds, nm \in NamesSet, o \in Orders : doc = Baseline(k, nm,
 
 \* fields around which the deepest level of deviation is concentrated
 CoreG == {"name", "rules", "labels"}
-CoreR == {"record", "alert", "expr", "labels", "annotations"}
+CoreR == {"record", "alert", "expr", "merge", "labels", "annotations"}
 Last == CoreOnly /\ n = MaxDev - 1
 
 Base == Baseline(doc.kind, doc.names, doc.order)
